@@ -215,6 +215,8 @@ def build_changeset(project, cs, nest, change_mod):
 def run_behaviour(item):
     """Replay one TLC behaviour (with one nesting variant) on a real project."""
     beh, nest = item
+    if isinstance(beh, str):       # behaviours travel as compact JSON text (memory)
+        beh = json.loads(beh)
     common.use_repo()
     from rope.base import project as project_mod, change as change_mod, taskhandle, fscommands, exceptions
 
@@ -375,7 +377,18 @@ def main(tier):
     cfg = os.path.join(common.SCRATCH_BASE, "c10_%d.cfg" % os.getpid())
     tlc.write_cfg(cfg, constants=constants(tier), invariants=INVARIANTS + ["Export"])
     behs = []
-    res = tlc.run("MC_RopeChange", cfg, on_tagged=lambda t, v: behs.append(v), collect_tags=False,
+    counter = {"n": 0, "kept": 0}
+
+    def on_beh(t, v):
+        # thorough: more than a million terminal behaviours; all failing ones with >= 2 fs commands are kept,
+        # of the rest a seeded half (TLC itself still checks every state)
+        counter["n"] += 1
+        if tier == "thorough" and not (v["result"] != "ok" and len(v["ops"]) >= 2) and \
+                (counter["n"] + common.SEED) % 2:
+            return
+        counter["kept"] += 1
+        behs.append(v)
+    res = tlc.run("MC_RopeChange", cfg, on_tagged=on_beh, collect_tags=False,
                   coverage=(tier == "quick"))
     os.unlink(cfg)
     print("TLC RopeChange:", res.summary())
@@ -450,7 +463,15 @@ def main(tier):
         chosen = keep[:40000] + rest[:15000]
         items = [(b, nv) for b in chosen for nv in nest_variants(b, rnd)]
     else:
-        items = [(b, nv) for b in behs for nv in nest_variants(b, rnd)]
+        cap = 450000
+        if len(behs) > cap:
+            rnd.shuffle(behs)
+            behs = behs[:cap]
+        items = [(json.dumps(b, separators=(",", ":")), nv) for b in behs for nv in nest_variants(b, rnd)]
+        sample_b = behs[len(behs) // 2] if behs else None
+        behs = [sample_b] if sample_b else []
+        import gc
+        gc.collect()
     counts = {"ok": 0, "error": 0, "rberror": 0}
     conf_mismatch = {}
     nontrivial = set()
@@ -487,7 +508,8 @@ def main(tier):
         "states": res.distinct, "transitions": res.generated,
         "traces_validated_against_impl": replayed,
         "samples": samples,
-        "exhaustive": tier == "thorough",
+        "exhaustive": False,
+        "behaviours_exported_by_tlc": counter["n"],
         "behaviours_from_tlc": total,
         "replays_by_spec_result": counts,
         "distinct_nontrivial": len(nontrivial),
